@@ -189,18 +189,38 @@ def r3(F, R):
             "the log forwarder is not the biased (first) argument of the select: completions can overtake pending logs")
     if len(fw) == 1:
         fb = F.body(fw[0])
-        el = [(s2, t2) for s2, t2 in fb.calls(lambda t2: any((op_fn(a) or {}).get("path", "").endswith("Collector::emitted_logs") for a in t2["args"]) or callee_is(t2, r"Collector::emitted_logs$"))]
-        ty = [(s2, t2) for s2, t2 in fb.calls(lambda t2: callee_is(t2, r"FutureExt::then_yield$"))]
-        R.check(len(el) == 1 and len(ty) == 1, "forwarder-shape", fb, "drain loop + then_yield", f"emitted_logs sites: {len(el)}, then_yield sites: {len(ty)}")
-        if len(el) == 1 and len(ty) == 1:
-            # the yield is reached only through the None edge of the drain (all pending logs forwarded first)
-            s_e, t_e = el[0]
-            vcy = A.vc_at(fb, ty[0][0])
-            k = f"_{t_e['dest']['l']}"
-            R.check(vcy.get(k) == frozenset(["None"]), "forwarder-drains-before-yield", ty[0][0], "yield only when emitted_logs() returned None", f"the forwarder yields while emitted_logs() may still be {sorted(vcy.get(k, ['?']))}")
-            sends = [(s3, t3) for s3, t3 in fb.calls() if F.callee_body(t3) is not None and any(True for _ in roles.sends(F, [F.callee_body(t3)]))]
-            okf = len(sends) == 1 and s_e in A.slice_back(fb, sends[0][1]["args"][1:], stop_calls=[r"Future::poll$"]).sites
-            R.check(okf, "forwarder-sends-what-it-drained", sends[0][0] if sends else fb, "send_all_events(logs)", "drained logs are not sent on the event channel")
+        # on the forwarder's path table (each row = one way through the loop body, cut at the loop heads): a row that
+        # suspends (yield / await) does so only after the *last* emitted_logs() of that row returned None (or there is no
+        # collector); a row that got Some(logs) hands exactly those logs to the sending routine
+        EL = r"Collector::emitted_logs$"
+        send_fns = [F.callee_body(t3) for s3, t3 in fb.calls() if F.callee_body(t3) is not None and any(True for _ in roles.sends(F, [F.callee_body(t3)]))]
+        send_rx = "|".join(re.escape(x.name.rsplit("::", 1)[-1]) + "$" for x in send_fns) or "$^"
+        rows = D.Deep(F, fb, opaque=EL + "|" + send_rx, max_paths=400).run()
+        n_el = n_y = 0
+        drained = sent = True
+        for p in rows:
+            last = None
+            for i, e in enumerate(p.effects):
+                if e[0] == "call" and re.search(EL, e[1]):
+                    n_el += 1
+                    last = ("call", e[1], e[2], e[4])
+                    st_ = [out for a_, out in p.conds if a_ == ("discr", last)]
+                    if st_ == ["Some"]:
+                        nxt = [e2 for e2 in p.effects[i + 1:] if e2[0] == "call" and (re.search(EL, e2[1]) or re.search(send_rx, e2[1]))]
+                        got = ("field", ("as", last, "Some"), 0)
+                        sent = sent and bool(nxt) and re.search(send_rx, nxt[0][1]) is not None and any(D.mentions(a_, lambda y: y == got) for a_ in nxt[0][2])
+                elif e[0] in ("await", "yield-once", "yield"):
+                    n_y += 1
+                    if last is not None:
+                        st_ = [out for a_, out in p.conds if a_ == ("discr", last)]
+                        drained = drained and st_ == ["None"]
+                    else:
+                        # no collector at all
+                        drained = drained and any(a_[0] == "discr" and out == "None" and not D.mentions(a_, lambda y: y[0] in ("call", "await")) for a_, out in p.conds)
+        R.check(n_el >= 1 and n_y >= 1, "forwarder-shape", fb, "drain loop + then_yield", f"emitted_logs calls on the forwarder's paths: {n_el}, suspensions: {n_y}")
+        if n_el >= 1 and n_y >= 1:
+            R.check(drained, "forwarder-drains-before-yield", fb, "yield only when emitted_logs() returned None", "the forwarder yields while emitted_logs() may still have logs (its last result was not None)")
+            R.check(sent, "forwarder-sends-what-it-drained", fb, "send_all_events(logs)", "drained logs are not sent on the event channel")
     # registration before dispatch, de-registration on the consumed message
     st = [(s2, t2) for s2, t2 in ex.calls(lambda t2: callee_is(t2, r"tracing::Collector::start_scenarios$", r"Collector::start_scenarios"))]
     pushes = [(s2, t2) for s2, t2 in ex.calls(lambda t2: callee_is(t2, r"FuturesUnordered::<.*>::push$"))]
